@@ -81,11 +81,13 @@ def documents(tier):
             cases.append({"def": d["id"], "argv": [h]})
             cases.append({"def": d["id"], "argv": ["run", "p", h]})
     # a header / help text whose first fragment holds the line break, followed by further styled fragments
-    for j, (t, cuts) in enumerate([("é\nmore x", [7]), ("ééé x\n\np second ñ", [9, 10]), ("first\nsecond third fourth", [13, 19])]):
+    for j, (t, cuts) in enumerate([("é\nmore x", [7]), ("ééé x\n\np second ñ", [9, 10]), ("first\nsecond third fourth", [13, 19])] +
+                                  [(t, None) for t in texts]):
         a = D.sw("f0", "-a", "--alpha", help=pe(t))
-        a["help_cuts"] = cuts
         a["group_help"] = pe(t)
-        a["gh_cuts"] = cuts
+        if cuts:
+            a["help_cuts"] = cuts
+            a["gh_cuts"] = cuts
         sub = D.level([D.sw("s0", "-s")], D.NOTAIL)
         if j == 2:
             sub["descr"] = pe(t)
